@@ -139,7 +139,7 @@ func initAllowed(path string) bool {
 		"encoding/binary", "context", "path", "path/filepath", "os", "cmp", "maps", "iter",
 		"container/heap", "container/list", "encoding/hex", "encoding/base64",
 		"internal/bytealg", "internal/byteorder", "internal/itoa", "internal/stringslite",
-		"hash", "fmt", "internal/fmtsort", "net", "flag",
+		"hash", "fmt", "internal/fmtsort", "net", "flag", "net/url", "net/textproto", "mime", "html", "text/template/parse",
 		"github.com/gopacket/gopacket/layers", "github.com/gopacket/gopacket":
 		return true
 	}
@@ -160,6 +160,7 @@ type HarnessCfg struct {
 	Deadline        time.Duration
 	SampleModels    int  // number of passing paths for which a model + observations are kept
 	StopOnViolation bool // stop exploring after the first violation
+	StopAfterViolations int
 	DumpDir         string
 	Seed            int64
 	Profile         bool
@@ -549,7 +550,7 @@ func Explore(P *Program, cfg HarnessCfg) *Result {
 							res.Violations = append(res.Violations, *pr.violation)
 						}
 						res.ViolationPaths++
-						if cfg.StopOnViolation {
+						if cfg.StopOnViolation || (cfg.StopAfterViolations > 0 && res.ViolationPaths >= cfg.StopAfterViolations) {
 							stop = true
 						}
 					} else {
@@ -583,7 +584,7 @@ func Explore(P *Program, cfg HarnessCfg) *Result {
 		}(w)
 	}
 	wg.Wait()
-	if len(work) > 0 && !cfg.StopOnViolation {
+	if len(work) > 0 && !cfg.StopOnViolation && !(cfg.StopAfterViolations > 0 && res.ViolationPaths >= cfg.StopAfterViolations) {
 		res.Incomplete = true
 	}
 	for f, c := range fnStats {
